@@ -53,7 +53,7 @@ func init() {
 			}
 			sort.Slice(fns, func(i, j int) bool { return core.FuncName(fns[i]) < core.FuncName(fns[j]) })
 			isPikeSearch := func(cal *ssa.Function) bool {
-				if cal == nil || cal.Signature.Recv() == nil || !strings.HasSuffix(cal.Signature.Recv().Type().String(), "nfa.PikeVM") {
+				if cal == nil || cal.Signature.Recv() == nil || !nfaEngineMethod(cal) {
 					return false
 				}
 				rs := cal.Signature.Results()
